@@ -643,3 +643,79 @@ func TypeName(t types.Type) string { return typeNameOf(t) }
 
 // FieldName returns the name of field idx of the struct (pointer) type t.
 func FieldName(t types.Type, idx int) string { return fieldName(t, idx) }
+
+// KeyComponent is one formatted component of a store key.
+type KeyComponent struct {
+	Verb string
+	Val  ssa.Value
+	At   ssa.Instruction
+}
+
+// KeyComponents decomposes a key expression into its formatted components: it follows []byte/string
+// conversions, inlines single-return key helpers and splits fmt.Sprintf by its constant format.
+// A key that is not built this way is returned as a single component.
+func (p *Program) KeyComponents(v ssa.Value, at ssa.Instruction) []KeyComponent {
+	for depth := 0; depth < 8; depth++ {
+		switch x := v.(type) {
+		case *ssa.Convert:
+			v = x.X
+			continue
+		case *ssa.ChangeType:
+			v = x.X
+			continue
+		case *ssa.Call:
+			callee := x.Call.StaticCallee()
+			if callee != nil && callee.String() == "fmt.Sprintf" && len(x.Call.Args) >= 1 {
+				format, fc, fok := p.ConstPrefix(x.Call.Args[0])
+				if fok && fc {
+					var args []ssa.Value
+					if len(x.Call.Args) > 1 {
+						args = VarArgs(x.Call.Args[1])
+					}
+					var out []KeyComponent
+					ai := 0
+					for i := 0; i < len(format); i++ {
+						if format[i] != '%' {
+							continue
+						}
+						if i+1 < len(format) && format[i+1] == '%' {
+							i++
+							continue
+						}
+						j := i + 1
+						for j < len(format) && strings.ContainsRune("+-# 0123456789.", rune(format[j])) {
+							j++
+						}
+						if j < len(format) && ai < len(args) && args[ai] != nil {
+							a := args[ai]
+							if mi, ok := a.(*ssa.MakeInterface); ok {
+								a = mi.X
+							}
+							out = append(out, KeyComponent{Verb: "%" + string(format[j]), Val: a, At: x})
+						}
+						ai++
+						i = j
+					}
+					return out
+				}
+			}
+			if callee != nil && callee.Blocks != nil && IsCustomFn(callee) {
+				var ret *ssa.Return
+				n := 0
+				for _, b := range callee.Blocks {
+					if r, ok := b.Instrs[len(b.Instrs)-1].(*ssa.Return); ok {
+						ret = r
+						n++
+					}
+				}
+				if n == 1 && len(ret.Results) == 1 {
+					v = ret.Results[0]
+					at = ret
+					continue
+				}
+			}
+		}
+		break
+	}
+	return []KeyComponent{{Verb: "", Val: v, At: at}}
+}
